@@ -30,9 +30,14 @@
 //!   * never more than `max_connections` connections are being served at once,
 //!     never more than the per-ip limit towards one cluster, and a connection
 //!     that holds a slot is never refused its own slot (one slot per connection);
-//!   * idle sessions are reclaimed; the worker accepts again after the storm.
+//!   * idle sessions are reclaimed; the worker accepts again after the storm;
+//!   * C12 through the real session code (backend snapshot hook): every backend's active_connections /
+//!     active_requests are 0 when traffic has ended; a refused connect is recorded (tries, failures), tries
+//!     never exceed the maximum nor decrease without a success, is_down <=> tries >= max, a served request
+//!     resets the policy; a revived backend is used again once its window allows and is then reset.
 //!
-//! usage: c16bb <seed> <max_connections> <per-ip limit> <rounds> [evict 0|1] [zombie secs, 0 = default] [k<i>_<j>..: only these outcomes]
+//! usage: c16bb <seed> <max_connections> <per-ip limit> <rounds> [evict 0|1] [zombie secs, 0 = default]
+//!              [k<i>_<j>..: only these outcomes | k] [revive 0|1]
 //! Nothing depends on how fast anything happens: "served at once" counts
 //! connections answered while every connection of the storm is held open and
 //! still open afterwards (a slow worker can only lower it); every wait for a
@@ -427,6 +432,14 @@ fn h2_read_stream(s: &mut Tls, sid: u32, wait: Duration) -> Option<bool> {
     None
 }
 
+/// every backend's state as the worker last published it (cfg(sozu_verif) hook); two metric queries
+/// first, so that at least one full event-loop iteration has run since the last outcome
+fn backends_snapshot(ch: &mut Main, n: &mut u32) -> Vec<sozu_lib::backends::VerifBackend> {
+    let _ = query(ch, n, vec![]);
+    let _ = query(ch, n, vec![]);
+    sozu_lib::backends::VERIF_BACKENDS.lock().map(|g| g.clone()).unwrap_or_default()
+}
+
 /// Are all per-(cluster, ip) slots of cluster `good` free, now that nothing talks to it?
 /// A slot left behind by a closed session stays attached to that session's token, and the next session
 /// that is given the same token inherits it (tracking is idempotent per token) and gives it back when it
@@ -605,6 +618,9 @@ fn main() {
 
     // the per-ip limit currently in force (changed at run time by outcome 20)
     let mut limit = per_ip;
+    let mut refusals = 0usize;
+    let mut dead_tries = 0usize;
+    let mut went_ok_last;
     // the tightest limit that was in force ever since some still-open connection was admitted: the
     // storm only holds connections it opened itself after the last change, so `limit` is it
     const NKINDS: u64 = 23;
@@ -618,18 +634,21 @@ fn main() {
         .or_else(|| {
             // 7th argument `k8_9`: cycle through outcomes 8 and 9 only (used by corpus witnesses)
             args.get(7).and_then(|a| a.strip_prefix('k')).map(|v| v.split('_').filter_map(|x| x.parse().ok()).collect())
-        });
+        })
+        .filter(|v: &Vec<usize>| !v.is_empty());
+    let revive = args.get(8).is_some_and(|a| a == "1");
     for round in 0..rounds {
         let mut kind = (rng.next() % NKINDS) as usize;
         if let Some(k) = only.as_ref() {
             kind = k[round % k.len()];
         }
         counts[kind] += 1;
+        went_ok_last = false;
         match kind {
             0 => {
                 if let Some(mut c) = tcp(&front) {
                     let _ = c.write_all(request("good.test", "/x", true).as_bytes());
-                    let _ = read_response(&mut c, Duration::from_secs(5));
+                    went_ok_last = read_response(&mut c, Duration::from_secs(5)).is_some_and(|l| l.contains(" 200"));
                 }
             }
             1 => {
@@ -883,6 +902,32 @@ fn main() {
             }
             _ => {}
         }
+        // C12, through the real session code: what the sessions did to the backend they were given
+        if matches!(kind, 0 | 4 | 18) {
+            let snap = backends_snapshot(&mut main_ch, &mut qn);
+            if let Some(d) = snap.iter().find(|b| b.backend_id == "dead-0") {
+                if kind != 0 {
+                    refusals += 1;
+                    if d.tries == 0 || d.failures == 0 {
+                        println!("viol c12-refusal-not-recorded the backend refused a connection and its retry policy shows tries={} failures={}", d.tries, d.failures);
+                    }
+                }
+                if d.tries > d.max_tries || d.is_down != (d.tries >= d.max_tries) || d.tries < dead_tries {
+                    println!("viol c12-retry-state dead backend: tries={} (before {dead_tries}) max={} is_down={}", d.tries, d.max_tries, d.is_down);
+                }
+                dead_tries = d.tries;
+                if d.active_connections > 1 || d.active_requests > 1 {
+                    println!("viol c12-counter-drift dead backend holds {} connections / {} requests with at most one client", d.active_connections, d.active_requests);
+                }
+            }
+            if kind == 0 {
+                if let Some(g) = snap.iter().find(|b| b.backend_id == "good-0") {
+                    if went_ok_last && (g.tries != 0 || g.failures != 0 || g.is_down) {
+                        println!("viol c12-success-not-recorded a request was just served by the backend and its retry policy shows tries={} failures={} is_down={}", g.tries, g.failures, g.is_down);
+                    }
+                }
+            }
+        }
         // sessions of the HTTPS and TCP listeners and WebSocket sessions close through their own paths:
         // look for a slot they left behind before a later session recycles their token
         if matches!(kind, 8 | 9 | 12 | 13 | 14 | 15 | 16 | 17 | 22) {
@@ -895,17 +940,51 @@ fn main() {
     println!("obs outcomes {:?}", counts);
     println!("obs went {:?}", went);
 
+    // C12: the refusing backend comes to life; as soon as its back-off window lets a connection
+    // through and it succeeds, its retry policy is reset (thorough tier: windows last up to 31 s)
+    if revive && refusals > 0 {
+        if let Ok(l) = TcpListener::bind(dead) {
+            std::thread::spawn(move || backend(l));
+            let t0 = Instant::now();
+            let mut served = false;
+            while t0.elapsed() < Duration::from_secs(75) {
+                if let Some(mut c) = tcp(&front) {
+                    let _ = c.write_all(request("dead.test", "/x", true).as_bytes());
+                    if read_response(&mut c, Duration::from_secs(3)).is_some_and(|l| l.contains(" 200")) {
+                        served = true;
+                        break;
+                    }
+                }
+                std::thread::sleep(Duration::from_millis(700));
+            }
+            println!("obs revive served={served} after {} ms", t0.elapsed().as_millis());
+            if !served {
+                println!("viol c12-no-recovery the backend accepts connections again and no request reached it within 75 s (back-off windows last at most 31 s)");
+            } else {
+                let snap = backends_snapshot(&mut main_ch, &mut qn);
+                if let Some(d) = snap.iter().find(|b| b.backend_id == "dead-0") {
+                    if d.tries != 0 || d.failures != 0 || d.is_down {
+                        println!("viol c12-success-not-recorded the revived backend served a request and its retry policy shows tries={} failures={} is_down={}", d.tries, d.failures, d.is_down);
+                    }
+                }
+            }
+        }
+    }
     // everything is over: the footprint must come back to the baseline
     let t0 = Instant::now();
     let mut last = vec![];
     let mut ok = false;
+    let mut busy: Vec<String> = vec![];
     let deadline = std::env::var("C16BB_DEADLINE").ok().and_then(|v| v.parse().ok()).unwrap_or(40u64);
     while t0.elapsed() < Duration::from_secs(deadline) {
         if let Some(g) = gauges(&mut main_ch, &mut qn) {
             last = g.clone();
             let same = base.iter().all(|(k, v)| get(&g, k) == Some(*v))
                 && g.iter().all(|(k, v)| get(&base, k).unwrap_or(0) == *v);
-            if same {
+            // ... and so must the load counters of every backend object (what the policies read)
+            let snap = backends_snapshot(&mut main_ch, &mut qn);
+            busy = snap.iter().filter(|b| b.active_connections != 0 || b.active_requests != 0).map(|b| format!("{}: {} connections, {} requests", b.backend_id, b.active_connections, b.active_requests)).collect();
+            if same && busy.is_empty() {
                 ok = true;
                 break;
             }
@@ -919,6 +998,9 @@ fn main() {
             if b != *v {
                 println!("viol not-baseline gauge {k} = {v}, baseline {b}, 40 s after the last connection closed");
             }
+        }
+        for b in &busy {
+            println!("viol backend-count-not-zero traffic has ended and backend {b}");
         }
         for (k, b) in &base {
             if get(&last, k).is_none() {
